@@ -1,3 +1,94 @@
-(* placeholder for the OCI checker, filled in later *)
-From WF Require Import Base.Bytes Check.Checker.
-Definition oci_step (line : bytes) : list finding := [].
+(* Checker for the OCI example (C17): judges what the example's route table did with a URL against
+   the endpoint specification, and replays it on model routers built from the regenerated table. *)
+From Coq Require Import Ascii String.
+From WF Require Import Base.Bytes Spec.Route Spec.Walk Spec.Oracles Spec.OciSpec.
+From WF Require Import Model.Tree Model.Router Check.Tokens Check.Events Check.Checker Gen.Oci.
+
+Definition NAME_C : bytes := Tokens.w "name".
+
+(* constraint function of the example: the name grammar (the regex is tied to it by `ociname` lines) *)
+Definition oci_chk (c v : bytes) : bool := if beqb c NAME_C then name_ok v else false.
+
+Definition methods : list bytes := map Tokens.w ["GET"; "POST"; "PUT"; "DELETE"; "HEAD"; "OPTIONS"; "CONNECT"; "PATCH"; "TRACE"]%string.
+
+(* model routers: one per method, routes inserted in table order; data = index into the table *)
+Definition oci_router (m : bytes) : router :=
+  let fix go (l : list (bytes * bytes * bytes)) (idx : N) (r : router) : router :=
+    match l with
+    | [] => r
+    | (me, t, _) :: l' =>
+      go l' (idx + 1)%N (if beqb me m then fst (rinsert r t idx) else r)
+    end in
+  go oci_routes 0%N (Router empty_node [(NAME_C, NAME_C)]).
+
+Definition oci_routers : list (bytes * router) := map (fun m => (m, oci_router m)) methods.
+
+Definition handler_of (idx : N) : bytes :=
+  match nth_error oci_routes (N.to_nat idx) with Some (_, _, h) => h | None => [] end.
+
+Definition expected_params (name : bytes) (sh : shape) (last : option bytes) : params :=
+  match sh with
+  | ShRoot => []
+  | _ => (NAME_C, name) ::
+         match last_param_name sh, last with Some n, Some v => [(n, v)] | _, _ => [] end
+  end.
+
+Definition shape_tag (sh : shape) : bytes :=
+  Tokens.w match sh with
+           | ShRoot => "/v2" | ShBlob => "/v2/<name>/blobs/<digest>" | ShManifest => "/v2/<name>/manifests/<reference>"
+           | ShUploads => "/v2/<name>/blobs/uploads" | ShUpload => "/v2/<name>/blobs/uploads/<reference>"
+           | ShTags => "/v2/<name>/tags/list" end%string.
+
+Definition check_oci (method url : bytes) (real : option (bytes * params)) : list finding :=
+  let rds := filter_map (fun x : shape * bytes * option bytes =>
+               match spec_handler method (fst (fst x)) with
+               | Some h => Some (x, h)
+               | None => None end) (readings url) in
+  let f_spec :=
+    match real with
+    | Some (h, ps) =>
+      if existsb (fun xh : (shape * bytes * option bytes) * bytes =>
+           beqb (snd xh) h
+           && params_eqb ps (expected_params (snd (fst (fst xh))) (fst (fst (fst xh))) (snd (fst xh)))) rds
+      then [] else [(FOci, [Tokens.w "wrong-handler-or-parameters"; method; url])]
+    | None =>
+      match rds with
+      | [] => []
+      | (x, _) :: _ => [(FOci, [Tokens.w "not-routed"; method; shape_tag (fst (fst x)); url])]
+      end
+    end in
+  let f_model :=
+    match List.find (fun mr : bytes * router => beqb (fst mr) method) oci_routers with
+    | Some (_, r) =>
+      let m := option_map (fun ip : info * params => (handler_of (i_data (fst ip)), snd ip)) (rsearch oci_chk r url) in
+      match m, real with
+      | None, None => []
+      | Some (h, ps), Some (h', ps') => fl (beqb h h' && params_eqb ps ps') FOciModel [method; url]
+      | _, _ => [(FOciModel, [method; url])]
+      end
+    | None => match real with None => [] | Some _ => [(FOciModel, [method; url])] end
+    end in
+  f_spec ++ f_model.
+
+Definition poci : P (list finding) :=
+  let* t := ptok in
+  if beqb t (Tokens.w "oci") then
+    (let* m := phex in let* u := phex in
+     let* r := popt (let* h := phex in let* ps := plist pparam in pret (h, ps)) in
+     pret (check_oci m u r))
+  else if beqb t (Tokens.w "ociname") then
+    (let* v := phex in let* b := pbool in pret (fl (Bool.eqb b (name_ok v)) FOciName [v]))
+  else pfail.
+
+Definition oci_step (line : bytes) : list finding :=
+  match poci (tokens line) with
+  | Some (fs, []) => fs
+  | _ => [(FBadLine, [line])]
+  end.
+
+(* obligations on the regenerated table *)
+Definition oci_table_wf : bool :=
+  Nat.eqb oci_route_calls (length oci_routes)
+  && match oci_constraint_name with Some n => beqb n NAME_C | None => false end
+  && oci_check_is_regex_match
+  && forallb (fun mth : bytes * bytes * bytes => existsb (beqb (fst (fst mth))) methods) oci_routes.
